@@ -6,6 +6,7 @@ import calendar
 import email.utils
 import itertools
 import re
+import time
 import unicodedata
 
 import implrun  # noqa: F401  (sets sys.path)
@@ -125,9 +126,12 @@ def lower_in_model(s):
 
 
 def correspond(ctx, name, cases):
+    start = time.time()
     ctx.correspondence(name, IMPORTS,
                        [(term, tov(exp), pay) for term, exp, pay in cases],
                        list)
+    ctx.extra.setdefault("phase_seconds", {})["coq:" + name] = \
+        round(time.time() - start, 1)
 
 
 def outcome(fun, *args, **kwargs):
@@ -148,8 +152,11 @@ def gen_int(rng):
         return rng.choice(INT_POOL)
     if kind < 0.8:
         return rng.randrange(0, 2 ** 63 + 1)
-    if kind < 0.97:
-        return rng.randrange(0, 10 ** rng.randrange(1, 60))
+    return rng.randrange(0, 10 ** rng.randrange(1, 60))
+
+
+def gen_huge(rng):
+    """up to CPython's 4300-digit limit (the model needs ~1 s for each)"""
     return 10 ** rng.choice([4298, 4299]) + rng.randrange(0, 1000)
 
 
@@ -277,7 +284,10 @@ def run(ctx):
     from poorwsgi import headers as H
     rng = ctx.rng
     quick = ctx.quick
+    start = time.time()
     ctx.check_obligations()
+    ctx.extra.setdefault("phase_seconds", {})["obligations"] = \
+        round(time.time() - start, 1)
 
     # ------------------------------------------------------------ ranges
     cases = []
@@ -288,6 +298,9 @@ def run(ctx):
         sets += [[(n, n)], [(n, None)], [(None, n)]]
     sets.append([(10 ** 4299, None)])
     sets.append([(0, 10 ** 4300 - 1)])
+    for _ in range(3 if quick else 40):
+        sets.append([(gen_huge(rng), rng.choice([None, gen_huge(rng)])),
+                     gen_range(rng)])
     sets.append([(10 ** 4300, None)])            # beyond the int<->str limit
     for rs in sets:
         units = rng.choice(UNITS)
